@@ -46,6 +46,7 @@ pub struct RealWorld {
     pub iters: HashMap<usize, FindMatches<'static>>,
     /// a scanner shared between threads (slot 99), used through `&Scanner` only
     pub shared: Option<std::sync::Arc<Scanner>>,
+    pub flip: bool,
 }
 
 impl RealWorld {
@@ -56,6 +57,7 @@ impl RealWorld {
             scanners: HashMap::new(),
             iters: HashMap::new(),
             shared: None,
+            flip: false,
         }
     }
 
@@ -161,12 +163,27 @@ impl RealWorld {
             }
             WOp::SetOff { k, o } => {
                 let line = format!("wsetoff {} {}", k, o);
+                // alternately `set_offset` and the consuming `with_offset` (same meaning)
+                self.flip = !self.flip;
+                if self.flip {
+                    match self.iters.remove(k) {
+                        Some(it) => match catch_unwind(AssertUnwindSafe(move || it.with_offset(*o))) {
+                            Ok(n) => {
+                                self.iters.insert(*k, n);
+                                (line, None)
+                            }
+                            Err(_) => (line, Some("panic".into())),
+                        },
+                        None => (line, Some("invalid".into())),
+                    }
+                } else {
                 match self.iters.get_mut(k) {
                     Some(it) => match catch_unwind(AssertUnwindSafe(|| it.set_offset(*o))) {
                         Ok(_) => (line, None),
                         Err(_) => (line, Some("panic".into())),
                     },
                     None => (line, Some("invalid".into())),
+                }
                 }
             }
             WOp::ISetMode { k, m } => {
